@@ -44,6 +44,20 @@ pub fn exec_tracker(
         }
     }
     out.stats.ops += case.ops.len() as u64;
+    // fault kinds that are part of the workload: count what actually fired
+    let late = r.probes.get("consumer_late_thread").cloned().unwrap_or(0);
+    if late > 0 {
+        out.stats.fault("late-consumer", late);
+    }
+    let dropped = r.probes.get("batch_result_dropped_early").cloned().unwrap_or(0);
+    if dropped > 0 {
+        out.stats.fault("cancel-batch-result", dropped);
+    }
+    let rearm = case.ops.iter().filter(|o| matches!(o, TOp::SetAutoWaste(_))).count() as u64;
+    if rearm > 0 && r.abort.is_none() {
+        out.stats.fault("gc-rearm", rearm);
+    }
+    out.stats.fault("hash-and-id-entropy", 1);
     if r.context_switches > 0 && case.ops.len() >= 2 {
         out.stats.nontrivial = true;
     }
@@ -616,7 +630,6 @@ impl Engine for TrackerEngine {
                     // drop the inserted op so that indices line up
                     h.remove(0);
                     c.ops.remove(0);
-                    out.stats.fault("gc-rearm", 1);
                     let c1 = canon(&c, &h, upto2, None, true);
                     if let Some((i, d, kind)) = first_diff(&c0.events, &c1.events, false) {
                         out.violation = Some(report("C03", "gc-timing-observable", "periodicity-variant", kind,
